@@ -53,6 +53,7 @@ cat_status eng_release_status(void);    /* OK or one of many non-zero values */
 void eng_hold_exit(cat_status st);        /* harness-side release request with model bookkeeping */
 void eng_spurious_hold_exit(void);
 long eng_progress_bound(void);
+extern void (*ENG_ON_HANDLER)(struct hcall *h);      /* optional: called first thing in every handler of an engine history (a check may act as another party there) */
 extern cat_return_state (*ENG_POLICY_OVERRIDE)(struct hcall *h);   /* optional: decide return codes instead of the weighted draw */
 extern prng_t H;                          /* handler-decision stream */
 
